@@ -85,6 +85,24 @@ def mergeDictColumnAs (card : Card) (used : Nat → Nat → Bool) (order : List 
   let dm := mergeDicts used (ins.map (·.dict))
   (dm.merged, mergeShuffledAs card order (ins.mapIdx (fun s d => remapInput dm s d.ords)))
 
+/-- mirrors: merge_dict_column.rs::compute_term_bitset — the ordinals the alive rows of a segment hold -/
+def termBitset (m : MergeInput Nat) (alive : List Nat) (o : Nat) : Bool :=
+  alive.any (fun r => (readRow m.index m.vals r).contains o)
+
+/-- mirrors: serialize_merged_dict (Shuffled) + is_term_present — a segment with an alive bitset and
+the column contributes its term bitset; a segment without either keeps every term it is positioned
+on (`alive`: per segment `none` = no bitset, e.g. every stacked merge) -/
+def usedOf (alive : List (Option (List Nat))) (ins : List DictInput) (s o : Nat) : Bool :=
+  match alive.getD s none, ins[s]? with
+  | some rows, some d => if d.ords.col.isSome then termBitset d.ords rows o else true
+  | _, _ => true
+
+/-- mirrors: merge_bytes_or_str_column under `MergeRowOrder::Stack` (every term is kept; the
+stacked column index; `boxed_iter_stacked` remaps every ordinal of every segment in turn) -/
+def mergeDictColumnStacked (ins : List DictInput) : List Nat × Index × List Nat :=
+  let dm := mergeDicts (fun _ _ => true) (ins.map (·.dict))
+  (dm.merged, mergeStacked (ins.mapIdx (fun s d => remapInput dm s d.ords)))
+
 /-- the terms a reader resolves for every row -/
 def readTerms (dict : List Nat) (idx : Index) (ords : List Nat) : Column (Option Nat) :=
   (read idx ords).map (fun r => r.map (fun o => dict[o]?))
